@@ -819,9 +819,19 @@ CLONE_LIKE = {
 
 # ----------------------------------------------------------------- facts set
 class Facts:
-    def __init__(self, path):
+    def __init__(self, path, resolve_anchors=True):
         with open(path) as f:
-            self.j = json.load(f)
+            text = f.read()
+        self.j = json.loads(text)
+        self.aliases = {}
+        if resolve_anchors:
+            from . import anchors
+            try:
+                self.aliases = anchors.resolve(self.j)
+            except Exception:      # a broken table must not take the analysis down: anchors then stay missing (fail closed)
+                self.aliases = {}
+            if self.aliases:
+                self.j = json.loads(anchors.rewrite(text, self.aliases))
         self.path = path
         self.types = self.j['types']
         self.fns = {n: Fn(n, j, self.types) for n, j in self.j['fns'].items()}
